@@ -624,10 +624,15 @@ def direct_op(op: Dict[str, Any], col: List[Any]) -> Optional[List[Any]]:
     return None
 
 
+class RunTimeout(BaseException):
+    pass
+
+
 class E2E:
     def __init__(self, ctx: Ctx, G: Groups):
         self.ctx = ctx
         self.G = G
+        self.timeout = 6.0
 
     def root(self, cols: Dict[str, List[Any]], multi: Optional[Dict[str, int]] = None) -> Any:
         return F.make_group(F.uniq("R16_"), root_data=cols, multi=multi)
@@ -638,8 +643,24 @@ class E2E:
         fw = F.FRAMEWORKS[fwname]
         classes = {self.G.impls[b][fwname] for b in E2E_GROUPS[fwname]}
         tr = make_trace()
+        import signal, os, sys
+
+        if os.environ.get("C16_DEBUG"):
+            print("E2E.run", fwname, [f if isinstance(f, str) else cjson(enc(f))[:300] for f in feats], file=sys.stderr, flush=True)
+
+        def _alarm(*_a: Any) -> None:
+            raise RunTimeout()
+
+        old = signal.signal(signal.SIGALRM, _alarm)
+        signal.setitimer(signal.ITIMER_REAL, self.timeout)
         try:
-            res = mloda.run_all(list(feats), compute_frameworks={fw}, plugin_collector=F.collector({root, *classes}), function_extender={tr})
+            try:
+                res = mloda.run_all(list(feats), compute_frameworks={fw}, plugin_collector=F.collector({root, *classes}), function_extender={tr})
+            finally:
+                signal.setitimer(signal.ITIMER_REAL, 0)
+                signal.signal(signal.SIGALRM, old)
+        except RunTimeout:
+            return {"ok": False, "phase": "timeout", "kind": "timeout", "msg": f"no result within {self.timeout}s"}
         except Exception as e:
             s = str(e)
             phase = "calc" if ("Traceback" in s or tr.events) else "resolve"
@@ -1282,7 +1303,7 @@ def run_e2e_suite(ctx: Ctx, G: Groups, K: int) -> None:
         variants: List[Tuple[str, Any, str]] = []  # (notation, feature, result column)
         variants.append(("name", Feature(name, Options(context=dict(top_opts))) if top_opts else name, name))
         leaf = rng.choice(["str", "fset", "feat", "fset_feat", "list"])
-        inner = rng.choice(["feat", "feat", "fset"])
+        inner = rng.choice(["feat", "feat", "fset"]) if d <= 2 else "feat"  # frozenset({Feature}) nests cost ~80x per level (see probe below)
         of = build_options_feature(ch, leaf, inner, rng, tag="p")
         variants.append((f"options[{leaf},{inner}]", of, f"p{d - 1}"))
         if d >= 2:
